@@ -103,14 +103,15 @@ fn log_un(func: &str, via: &str, l: &P, ret: &str) {
 
 impl PartialEq for P {
     fn eq(&self, o: &P) -> bool {
-        let r = self.v == o.v;
+        // like a float: the value NAN is not equal to anything, itself included
+        let r = self.v == o.v && self.v != NAN;
         log_bin("eq", "own", self, o, if r { "true" } else { "false" });
         r
     }
 
     #[allow(clippy::partialeq_ne_impl)]
     fn ne(&self, o: &P) -> bool {
-        let r = self.v != o.v;
+        let r = !(self.v == o.v && self.v != NAN);
         log_bin("ne", "own", self, o, if r { "true" } else { "false" });
         r
     }
@@ -599,6 +600,45 @@ pub fn run_eq<T: Case + PartialEq, W: Write>(out: &mut Out<W>, dom: &[i8], pairs
     }
 }
 
+/// `x == x` / `x != x` on one and the same object, for every value including the non-reflexive NAN: an
+/// implementation must not answer from the identity of the operands
+pub fn run_eq_same<T: Case + PartialEq, W: Write>(out: &mut Out<W>, dom: &[i8]) {
+    for a in all_values::<T>(&with_nan(dom)).iter() {
+        let x = T::make(0, a.v, &a.f);
+        #[allow(clippy::eq_op)]
+        let r = guarded(|| x == x);
+        let calls = calls_json();
+        #[allow(clippy::eq_op)]
+        let rn = guarded(|| x != x);
+        let ncalls = calls_json();
+        let body = match (r, rn) {
+            (Ok(r), Ok(rn)) => format!(
+                "\"ev\":\"op\",\"t\":{},\"op\":\"eq_same\",\"a\":{},\"calls\":{},\"ret\":{},\"ncalls\":{},\"nret\":{}",
+                T::ID, a.json(), calls, r, ncalls, rn
+            ),
+            _ => format!("\"ev\":\"op\",\"t\":{},\"op\":\"panic\",\"in\":\"eq_same\",\"a\":{}", T::ID, a.json()),
+        };
+        out.rec(&body);
+    }
+}
+
+/// `x.partial_cmp(&x)` on one and the same object (NAN included)
+pub fn run_pcmp_same<T: Case + PartialOrd, W: Write>(out: &mut Out<W>, dom: &[i8]) {
+    for a in all_values::<T>(&with_nan(dom)).iter() {
+        let x = T::make(0, a.v, &a.f);
+        let r = guarded(|| x.partial_cmp(&x));
+        let calls = calls_json();
+        let body = match r {
+            Ok(r) => format!(
+                "\"ev\":\"op\",\"t\":{},\"op\":\"partial_cmp_same\",\"a\":{},\"calls\":{},\"ret\":\"{}\"",
+                T::ID, a.json(), calls, pord_name(r)
+            ),
+            _ => format!("\"ev\":\"op\",\"t\":{},\"op\":\"panic\",\"in\":\"partial_cmp_same\",\"a\":{}", T::ID, a.json()),
+        };
+        out.rec(&body);
+    }
+}
+
 /// `a.cmp(&b)` for every ordered pair of values
 pub fn run_cmp<T: Case + Ord, W: Write>(out: &mut Out<W>, dom: &[i8], pairs: &dyn Fn(&AVal, &AVal) -> bool) {
     let vals = all_values::<T>(dom);
@@ -854,8 +894,6 @@ pub fn run_into<T: Case + Into<TT<K>>, const K: u8, W: Write>(out: &mut Out<W>, 
 
 pub trait UCase: Sized {
     const ID: usize;
-    /// build the union from exactly size_of::<Self>() bytes (through its `raw` byte-array member)
-    fn from_bytes(b: &[u8]) -> Self;
 }
 
 pub fn union_patterns(n: usize) -> Vec<Vec<u8>> {
@@ -892,26 +930,48 @@ fn raw_bytes<T>(x: &T) -> Vec<u8> {
     unsafe { std::slice::from_raw_parts(x as *const T as *const u8, std::mem::size_of::<T>()).to_vec() }
 }
 
-pub fn run_union<T: UCase + std::fmt::Debug + PartialEq + Hash + Clone, W: Write>(out: &mut Out<W>, type_name: &str) {
+/// a union value living in place: `size_of::<T>()` bytes written into aligned storage and only ever seen through a
+/// reference (a move need not carry the bytes no member covers)
+pub struct InPlace<T> {
+    slot: std::mem::MaybeUninit<T>,
+}
+impl<T> InPlace<T> {
+    pub fn new(b: &[u8]) -> Self {
+        let mut slot = std::mem::MaybeUninit::<T>::uninit();
+        assert_eq!(b.len(), std::mem::size_of::<T>());
+        unsafe { std::ptr::copy_nonoverlapping(b.as_ptr(), slot.as_mut_ptr() as *mut u8, b.len()) };
+        InPlace { slot }
+    }
+    pub fn get(&self) -> &T {
+        unsafe { &*self.slot.as_ptr() }
+    }
+}
+
+/// `covered`: the number of leading bytes some member covers (the rest is padding, which a by-value clone need not
+/// carry: the clone's bytes are reported for the covered prefix only, the tail is taken from the source)
+pub fn run_union<T: UCase + std::fmt::Debug + PartialEq + Hash + Clone, W: Write>(out: &mut Out<W>, type_name: &str, covered: usize) {
     let n = std::mem::size_of::<T>();
     let pats = union_patterns(n);
     for b in pats.iter() {
-        let x = T::from_bytes(b);
+        let xs = InPlace::<T>::new(b);
+        let x = xs.get();
         let r = catch_unwind(AssertUnwindSafe(|| {
-            let (o, p) = fmt_both(&x);
+            let (o, p) = fmt_both(x);
             let mut h = RecHasher::default();
             x.hash(&mut h);
             let mut hr = RecHasher::default();
             b[..].hash(&mut hr);
             let c = x.clone();
+            let mut cb = raw_bytes(&c);
+            cb[covered.min(n)..].copy_from_slice(&b[covered.min(n)..]);
             let mut eqs = Vec::new();
             for b2 in pats.iter() {
-                let y = T::from_bytes(b2);
-                eqs.push(format!("[{},{}]", bytes_json(b2), x == y));
+                let ys = InPlace::<T>::new(b2);
+                eqs.push(format!("[{},{}]", bytes_json(b2), x == ys.get()));
             }
             format!(
                 "\"out\":{},\"pretty\":{},\"feed\":[{}],\"reffeed\":[{}],\"clone\":{},\"eqs\":[{}]",
-                jstr(&o), jstr(&p), h.feed.join(","), hr.feed.join(","), bytes_json(&raw_bytes(&c)), eqs.join(",")
+                jstr(&o), jstr(&p), h.feed.join(","), hr.feed.join(","), bytes_json(&cb), eqs.join(",")
             )
         }));
         match r {
